@@ -67,6 +67,14 @@ partial def parseTG : List String → Option (TG × List String)
   | "(" :: "GatherElements0" :: r => do
       let ([x, i], r) ← parseArgs 2 r | none
       some (.gatherElements x i, r)
+  | "(" :: "ArgMax" :: ax :: kd :: r => do
+      let ax ← parseNat? ax
+      let ([x], r) ← parseArgs 1 r | none
+      some (.argext true ax (kd == "1") x, r)
+  | "(" :: "ArgMin" :: ax :: kd :: r => do
+      let ax ← parseNat? ax
+      let ([x], r) ← parseArgs 1 r | none
+      some (.argext false ax (kd == "1") x, r)
   | "(" :: "Trilu" :: up :: r => do
       let ([x, k], r) ← parseArgs 2 r | none
       some (.trilu (up == "1") x k, r)
@@ -235,6 +243,10 @@ def cmdTgRender (args0 : List String) : String :=
     | some v, some dt => (constFillGraph v (.shape x) dt).render | _, _ => "bad-op"   -- x = in0
   | ["creation", "arange", start, step, dt] => match parseInt? start, parseInt? step, parseNat? dt with
     | some a, some st, some dt => (arangeGraph a x st dt).render | _, _, _ => "bad-op"   -- stop = in0
+  | ["argext", mx, t, rank, axis, kd] =>
+    match parseNat? t, parseNat? rank, parseOptInt axis with
+    | some t, some r, some ax => (argextGraph x (mx == "1") t r ax (kd == "1")).render
+    | _, _, _ => "bad-op"
   | ["trilu", t, upper, k] => match parseNat? t, parseInt? k with
     | some t, some k => (triluGraph x t (upper == "1") k).render | _, _ => "bad-op"
   | ["broadcast_arrays", t, n, i] => match parseNat? t, parseNat? n, parseNat? i with
